@@ -112,7 +112,16 @@ def scenarios(tier, seed):
         for solver in (2, 1):
           for cone in (0, 1):
             add(dict(fam="size", kind=kind, nv=nv, variant=(variant + dv) % 4, solver=solver, cone=cone, ws=ws))
+  # per-world force-law parameters (mc/refs/c24scenes.py): the optimum of world w must be the optimum of ITS cone/impedance
+  from mc.refs import c24scenes as bs
+
+  for s in bs.scenarios(tier, seed):
+    if s["field"] in BATCHED_FIELDS:
+      add(dict(s, fam="batched"))
   return out
+
+
+BATCHED_FIELDS = ("opt.impratio_invsqrt", "geom_friction", "geom_solref", "geom_solimp")
 
 
 def _core():
@@ -315,10 +324,59 @@ def reference(mjm, states, eq_off):
   return out
 
 
+def execute_batched(scn):
+  """World w holds batch entry w % b of `field` and state w // b; certificate O1/O3 per world on its own parameters."""
+  import warp as wp
+  import mujoco_warp as mjw
+  from mc.refs import c24scenes as bs
+
+  xml, states, kw0 = bs.scene(scn["scene"], scn["variant"])
+  mjm, err = util.try_load(xml)
+  if mjm is None:
+    return dict(ok=True, nontrivial=False, outcome="rejected_by_compiler", info=err)
+  c = util.Cmp()
+  for k in PATHS:
+    PATHS[k] = 0
+  b = len(scn["order"])
+  nworld = b * len(states)
+  qpos = np.array([states[w // b][1] for w in range(nworld)], dtype=np.float32)
+  qvel = np.array([states[w // b][2] for w in range(nworld)], dtype=np.float32)
+  nactive = nconfig = 0
+  for cone in (0, 1):
+    mjm.opt.cone = cone
+    for jac in (0, 1):
+      mjm.opt.jacobian = jac
+      mjm.opt.solver = 2
+      m, labels = bs.put_batched(mjw, wp, mjm, scn["field"], scn["order"], scn["variant"])
+      kw = dict(kw0)
+      if jac:
+        kw.setdefault("njmax", 64)
+        kw["njmax_nnz"] = int(kw["njmax"]) * mjm.nv
+      d = mjw.make_data(mjm, nworld=nworld, **kw)
+      d.qpos.assign(qpos)
+      d.qvel.assign(qvel)
+      mjw.forward(m, d)
+      nconfig += 1
+      overflow = d.overflow.numpy()
+      tagkey = f"newton:{'elliptic' if cone else 'pyramidal'}:{'sparse' if jac else 'dense'}"
+      for w in range(nworld):
+        pre = f"batched:{scn['field']}:{tagkey}:w{w} ({labels[w % b]}, state {states[w // b][0]}):"
+        act, _ = check_world(c, pre, mjm, m, d, w, overflow, None, "batched:" + tagkey)
+        nactive += act
+  return c.result(
+    nontrivial=nactive > 0,
+    key=util.sha(scn),
+    info=dict(nv=int(mjm.nv), nworld=nworld, active_worlds=nactive, configs=nconfig, checked=c.nchecked),
+    counts=dict(extra_evaluations=nconfig * nworld, **{"certificate_" + k: v for k, v in PATHS.items()}),
+  )
+
+
 def execute(scn):
   import mujoco
   import mujoco_warp as mjw
 
+  if scn["fam"] == "batched":
+    return execute_batched(scn)
   mjm, info = build(scn)
   if mjm is None:
     return dict(ok=True, nontrivial=False, outcome="rejected_by_compiler", info=info)
